@@ -4,14 +4,14 @@ from . import gensparse as gs
 
 reg(Prop("C14",
          [("hist", gs.g_hist, 50), ("partial", gs.g_partial, 30), ("hist_high", gs.g_hist_high, 10),
-          ("hist_wide", gs.g_hist_wide, 10), ("outdomain", gs.g_outdomain, 1)],
+          ("hist_wide", gs.g_hist_wide, 10), ("hist_far", gs.g_hist_far, 8), ("outdomain", gs.g_outdomain, 1)],
          has("composed"),
          "histories of 2-40 Store/Load/Missing/Blocks on a fresh Sparse: addresses in a 40-byte window (and the same "
-         "shapes just below 2^64), widths 1..12 mostly, up to 255; constants with distinct bytes, registers, memory "
+         "shapes just below 2^64, and two regions at least 2^63 bytes apart with interleaved operations), widths 1..12 mostly, up to 255; constants with distinct bytes, registers, memory "
          "loads and random trees as values, value width =, < and > store width; stores placed to overlap earlier ones "
          "at either end, inside and adjacent; loads inside one block, across 2-4 blocks, across gaps; every loaded "
          "expression evaluated under 6 valuations against the replayed byte map; aliasing monitor re-prints every "
-         "value handed in/returned; non-trivial = a load succeeded that cuts a stored value at its begin or end or "
+         "value handed in/returned (expressions, narrowed constants' parents, interval maps of Missing/Blocks); non-trivial = a load succeeded that cuts a stored value at its begin or end or "
          "joins >= 2 stored pieces; distinct = distinct history lines",
          3000, 200000,
          trusted=["github.com/zyedidia/generic/interval (AVL interval tree) modelled as a list sorted by low with unique "
